@@ -106,3 +106,11 @@ def harvested_names(ctx, packages=("edgegraph/structure", "edgegraph/output/nrpi
                         out.append(n)
     ctx.src._verif_harvest = out[:12]
     return ctx.src._verif_harvest
+
+
+def aux_state(h, res):
+    """The tree keeps auxiliary mutable state next to the role fields: pre-states are then reached through the public API only
+    (no opaque segments), and the verdict of the inductive engines is a bounded one."""
+    if getattr(h, "aux", None):
+        res.bounded_only = True
+        res.note(f"auxiliary state {h.aux}: pre-states are built through the public API (concrete, no opaque segments); level for this run: bounded")
